@@ -88,6 +88,17 @@ def admissible(q):
         return False
     if q.order != 'r1' and abs(q.iotaN) < 1e-3:
         return False
+    # the grid resolves the first-order solution: at 2 nphi + 1 the solve converges too and iota moves by < 1 %
+    # (weeds out pathological random inputs - elongation ~ 50, Newton stalling at other resolutions - on which the
+    # discrete nonlinear system has several roots and 'the' computed solution is not a function of the configuration)
+    try:
+        q2 = Qsc(rc=q.rc, zs=q.zs, rs=q.rs, zc=q.zc, nfp=q.nfp, etabar=q.etabar, sigma0=q.sigma0, B0=q.B0, I2=q.I2, sG=q.sG,
+                 spsi=q.spsi, nphi=2 * q.nphi + 1, order='r1')
+        r2 = q2._residual(np.concatenate(([q2.iota], q2.sigma[1:])))
+        if not (np.sqrt(np.sum(r2 * r2)) <= 1e-9) or abs(q2.iota - q.iota) > 1e-2 * (1 + abs(q.iota)):
+            return False
+    except Exception:
+        return False
     if q.order != 'r1':
         # well-conditioned second order: the O(r^2) shape stays moderate (r_singularity not below 1e-3 of the major radius)
         if not np.all(np.isfinite(q.X20)) or q.r_singularity < 1e-3 * np.min(q.R0):
